@@ -23,7 +23,7 @@ func init() {
 			"(e) on the blinded edge SubmitProposal is reachable only through a nil error of the unblinding call, whose nil returns occur only on the arm that received a relay response and where the proposal's content is replaced by that response; " +
 			"(f) a graffiti failure still reaches proposeBlock and an auction failure still reaches the beacon node's Proposal call; (g) what is submitted is the value returned by the signing helper; " +
 			"(h) the auction results pointer is not dereferenced on a path where it may be nil. " +
-			"Added with the third seeding round: (h, extended) results of the package's own (T, error) helpers that can be nil without an error are dereferenced only behind a nil test. Added with the fourth seeding round: (b, extended) every value reaching SetRandaoReveal is the result of SignRANDAOReveal; (e, extended) a tested TryAcquire that succeeded is released on every path. Added with the fifth seeding round: (e, extended) the unblinding goroutines never wait for the semaphore with a blocking Acquire; (x) the cross-cutting rules (shadowed results, wrap of nil, nil without error, wait-group balance) inside the proposer and signer. Added with the sixth seeding round and the false-alarm regression: (y) C09.e (the collector waits under the strategy's deadline) is taken over; (x) no dereference of a call's result on a path that continues after its error was found non-nil. NOT decided: that the relay's full block corresponds to the blinded header (the relay is trusted), BLS validity (C06), retry timing.",
+			"Added with the third seeding round: (h, extended) results of the package's own (T, error) helpers that can be nil without an error are dereferenced only behind a nil test. Added with the fourth seeding round: (b, extended) every value reaching SetRandaoReveal is the result of SignRANDAOReveal; (e, extended) a tested TryAcquire that succeeded is released on every path. Added with the fifth seeding round: (e, extended) the unblinding goroutines never wait for the semaphore with a blocking Acquire; (x) the cross-cutting rules (shadowed results, wrap of nil, nil without error, wait-group balance) inside the proposer and signer. Added with the sixth seeding round and the false-alarm regression: (y) C09.e (the collector waits under the strategy's deadline) is taken over; (x) no dereference of a call's result on a path that continues after its error was found non-nil. Added with the seventh seeding round: (k) in the signer a parameter that is passed on under a name the signer has a parameter for (a field of a literal, a named parameter of the callee) is that parameter. NOT decided: that the relay's full block corresponds to the blinded header (the relay is trusted), BLS validity (C06), retry timing.",
 		Technique: "SSA guard/edge-deletion queries with guard-helper summaries (error-nilness), provenance of call arguments and composite-literal fields, select-arm guards, maybe-nil dereference analysis",
 		Rule:      "one obligation per guarded effect, per signer argument, per signed-container literal field, per nil-able return, per dereference; non-trivial = the construct exists and a path/provenance query was evaluated",
 	})
